@@ -6,7 +6,7 @@ PLAN = {
         "text": "For an ARBITRARY state of the recency map (the lock hands out any state: the rely of a lock-protected map), any clock value, generation, mask and timeout, should_store is proved to perform exactly one step of the property's per-series state machine for (kind, key) -- keep/forget decision, boundary now - t == timeout keeps, deletion only after the registry confirmed it -- and to leave the state of every other (kind', key') untouched. By induction over observations this is the property for all histories, keys, kinds, masks and timeouts.",
         "note": "Assumed: std Mutex is a lock; vstd HashMap specs + an assumed get_mut spec; quanta Instant subtraction saturates; K's Hash/Eq/Clone are consistent (C03 for metrics::Key); registry deletion is an opaque call; generation bump after every update is checked in the Kani part.",
     },
-    "min_obligations": {"quick": 16, "thorough": 16},
+    "min_obligations": {"quick": 21, "thorough": 21},
     "assumptions": [
         "std::sync::Mutex is a lock; the protected value at acquisition is arbitrary (assume_specification without ensures)",
         "vstd specifications of HashMap::{insert, remove}; ASSUMED specification of HashMap::get_mut (hit: mutable access to exactly that key's value, miss: no change)",
@@ -18,6 +18,9 @@ PLAN = {
     ],
     "verus": [
         {"template": "recency.verus.rs", "tier": "quick", "rlimit": 50, "min_functions": 12},
+        # Prometheus side of the property (an expired histogram's aggregated distribution is removed under the SAME series identity
+        # that draining uses): shared template with C07
+        {"template": "../C07/recorder.verus.rs", "tier": "quick", "rlimit": 60, "min_functions": 5},
     ],
     "kani": [{
         "crate": "metrics-util", "parallel": 4,
